@@ -1,5 +1,7 @@
 //! C13 correspondence driver.
 use std::collections::{BTreeMap, HashSet};
+use verif_harness::auth::{self, AAuth, ABlock, AGen, ARule};
+use verif_harness::datalog::DGen;
 use verif_harness::snapshot::*;
 use verif_harness::symbols::write_ocaml_shards;
 use verif_harness::*;
@@ -71,6 +73,43 @@ fn main() {
         }
         lines.push(g);
     }
+    // ---- second stream (implementation only): programs over the whole language (all term
+    // types, expressions, closures, scopes, third-party blocks) from the C04 generator; the
+    // original and the authorizers restored from its raw and base64 snapshots must show the same
+    // code, facts per origin, authorize() result and query answers -- before a run, after
+    // authorize(), and after a run stopped by the iteration budget
+    let rich_n = arg_u64("--rich", if thorough { 4000 } else { 400 });
+    let mut rich_differs: Vec<String> = vec![];
+    let mut rich_hist: BTreeMap<String, u64> = BTreeMap::new();
+    {
+        let mut rrng = Rng::new(seed ^ 0x1313);
+        let akeys = auth::make_keys(&mut rrng);
+        for j in 0..rich_n {
+            let mut g = AGen { d: DGen { rng: rrng.fork(), risky: j % 2 == 0 }, nblocks: 0 };
+            let nb = 1 + g.d.rng.below(3) as usize;
+            let blocks: Vec<ABlock> = (0..nb).map(|i| g.block(i)).collect();
+            let a = g.authorizer();
+            let probes: Vec<ARule> = (0..2).map(|_| g.probe()).collect();
+            let moment = j % 3;
+            let r = std::panic::catch_unwind(std::panic::AssertUnwindSafe(|| rich_case(&blocks, &a, &probes, moment, &akeys, &mut rrng)));
+            let verdict = match r {
+                Ok(Ok(class)) => class,
+                Ok(Err(what)) => {
+                    if rich_differs.len() < 20 {
+                        rich_differs.push(format!("rich case {} (seed {}, moment {}): {}", j, seed, moment, what));
+                    }
+                    "differs".to_string()
+                }
+                Err(_) => {
+                    if rich_differs.len() < 20 {
+                        rich_differs.push(format!("rich case {} (seed {}, moment {}): panicked", j, seed, moment));
+                    }
+                    "panicked".to_string()
+                }
+            };
+            *rich_hist.entry(format!("moment {}: {}", moment, verdict)).or_default() += 1;
+        }
+    }
     let kernel_n = arg_u64("--kernel-n", if thorough { 480 } else { 48 }) as usize;
     let files = write_ocaml_shards(&out, "C13", "snapshot", "ncase_failures", &lines, shards, 8).expect("write cases");
     let stride = (lines.len() / kernel_n.max(1)).max(1);
@@ -82,7 +121,7 @@ fn main() {
     let files_s: Vec<String> = files.iter().chain(kfiles.iter()).map(|p| jstr(p)).collect();
     let cut = |v: &Vec<usize>| v[..v.len().min(5000)].to_vec();
     println!(
-        "{{\"family\": \"snapshot\", \"evaluations\": {}, \"corpus\": {}, \"random_cases\": {}, \"distinct_nontrivial\": {}, \"histogram\": {{{}}}, \"inputs_mismatch\": {:?}, \"restore_failed_count\": {}, \"restore_failed\": {:?}, \"snapshot_differs\": {:?}, \"behaviour_differs\": {:?}, \"builder_snapshot_failed\": {:?}, \"policies_failed_count\": {}, \"policies_failed\": {:?}, \"panics\": {:?}, \"samples\": [{}], \"kernel_sample\": {}, \"files\": [{}]}}",
+        "{{\"family\": \"snapshot\", \"evaluations\": {}, \"corpus\": {}, \"random_cases\": {}, \"distinct_nontrivial\": {}, \"histogram\": {{{}}}, \"inputs_mismatch\": {:?}, \"restore_failed_count\": {}, \"restore_failed\": {:?}, \"snapshot_differs\": {:?}, \"behaviour_differs\": {:?}, \"builder_snapshot_failed\": {:?}, \"policies_failed_count\": {}, \"policies_failed\": {:?}, \"panics\": {:?}, \"rich_programs\": {}, \"rich_histogram\": {{{}}}, \"rich_differs\": [{}], \"samples\": [{}], \"kernel_sample\": {}, \"files\": [{}]}}",
         cs.len(),
         n_corpus,
         n,
@@ -97,8 +136,105 @@ fn main() {
         policies_failed.len(),
         cut(&policies_failed),
         panics,
+        rich_n,
+        rich_hist.iter().map(|(k, v)| format!("{}: {}", jstr(k), v)).collect::<Vec<_>>().join(", "),
+        rich_differs.iter().map(|s| jstr(s)).collect::<Vec<_>>().join(", "),
         samples.iter().map(|s| jstr(s)).collect::<Vec<_>>().join(", "),
         sample.len(),
         files_s.join(", ")
     );
+}
+
+/// what an authorizer shows: sorted code, facts per origin, then authorize() and the answers of
+/// the probe queries (on a clone, so that the observation does not change it)
+fn rich_observe(a: &biscuit_auth::Authorizer, probes: &[ARule], keys: &auth::Keys) -> (String, auth::Outcome) {
+    let mut a = a.clone();
+    let mut code: Vec<String> = a.dump_code().lines().map(|l| l.to_string()).collect();
+    code.sort();
+    let before = auth::world_facts(&a);
+    let res = auth::outcome_of(&a.authorize());
+    let after = auth::world_facts(&a);
+    let mut qs = vec![];
+    for q in probes {
+        let r1 = a.query(auth::b_rule(q, &keys.ext_pub)).map(|mut v: Vec<biscuit_auth::builder::Fact>| {
+            let mut t: Vec<String> = v.drain(..).map(|f| f.to_string()).collect();
+            t.sort();
+            t
+        });
+        let r2 = a.query_all(auth::b_rule(q, &keys.ext_pub)).map(|mut v: Vec<biscuit_auth::builder::Fact>| {
+            let mut t: Vec<String> = v.drain(..).map(|f| f.to_string()).collect();
+            t.sort();
+            t
+        });
+        // errors by class: their text carries symbol-table indices, which a restored authorizer may number differently
+        let class = |e: biscuit_auth::error::Token| match e {
+            biscuit_auth::error::Token::Execution(_) => "execution error",
+            biscuit_auth::error::Token::RunLimit(_) => "run limit",
+            _ => "other error",
+        };
+        qs.push(format!("{:?} / {:?}", r1.map_err(class), r2.map_err(class)));
+    }
+    (format!("code {:?}\nfacts before {:?}\niterations {}\nfacts after {:?}\nqueries {:?}", code, before, a.iterations(), after, qs), res)
+}
+
+fn rich_case(blocks: &[ABlock], a: &AAuth, probes: &[ARule], moment: u64, keys: &auth::Keys, rng: &mut Rng) -> Result<String, String> {
+    let token = match auth::build_token(blocks, keys, rng) {
+        Ok(t) => t,
+        Err(_) => return Ok("token refused".into()),
+    };
+    let bytes = token.to_vec().map_err(|e| format!("to_vec: {:?}", e))?;
+    let token = biscuit_auth::Biscuit::from(&bytes, keys.root.public()).map_err(|e| format!("reload: {:?}", e))?;
+    let limits = if moment == 2 { (100_000, 1) } else { (100_000, 2000) };
+    // no extern functions: a snapshot cannot carry them
+    let ab = match auth::build_authorizer(a, keys, limits) {
+        Ok(b) => b.set_extern_funcs(Default::default()),
+        Err(_) => return Ok("authorizer refused".into()),
+    };
+    let mut az = match ab.build(&token) {
+        Ok(x) => x,
+        Err(_) => return Ok("load refused".into()),
+    };
+    let mut class = "before run".to_string();
+    if moment > 0 {
+        class = match az.authorize() {
+            Ok(_) => "after authorize: ok".into(),
+            Err(biscuit_auth::error::Token::RunLimit(_)) => "after authorize: run limit".into(),
+            Err(biscuit_auth::error::Token::FailedLogic(_)) => "after authorize: refused".into(),
+            Err(_) => "after authorize: other error".into(),
+        };
+    }
+    let raw = az.to_raw_snapshot().map_err(|e| format!("to_raw_snapshot: {:?}", e))?;
+    let b64 = az.to_base64_snapshot().map_err(|e| format!("to_base64_snapshot: {:?}", e))?;
+    let r1 = biscuit_auth::Authorizer::from_raw_snapshot(&raw).map_err(|e| format!("from_raw_snapshot refused a snapshot the library produced: {:?}", e))?;
+    let r2 = biscuit_auth::Authorizer::from_base64_snapshot(&b64).map_err(|e| format!("from_base64_snapshot refused a snapshot the library produced: {:?}", e))?;
+    let (o, res) = rich_observe(&az, probes, keys);
+    for (which, r) in [("raw", &r1), ("base64", &r2)] {
+        let (o1, res1) = rich_observe(r, probes, keys);
+        if o != o1 {
+            return Err(format!("the authorizer restored from the {} snapshot differs\n--- original\n{}\n--- restored\n{}", which, o, o1));
+        }
+        if res != res1 {
+            // an execution error on one side only may be C11's known class (a deciding and an erroring
+            // binding met in hash order; the restored authorizer has other hash seeds): it is, when
+            // fresh builds of the ORIGINAL already show both results
+            let exec = |x: &auth::Outcome| matches!(x, auth::Outcome::Exec);
+            let mut explained = false;
+            if exec(&res) != exec(&res1) {
+                for _ in 0..24 {
+                    let ab = auth::build_authorizer(a, keys, limits).map_err(|e| format!("{:?}", e))?.set_extern_funcs(Default::default());
+                    let mut fresh = ab.build(&token).map_err(|e| format!("{:?}", e))?;
+                    let rf = auth::outcome_of(&fresh.authorize());
+                    if rf == res1 {
+                        explained = true;
+                        break;
+                    }
+                }
+            }
+            if !explained {
+                return Err(format!("authorize() on the authorizer restored from the {} snapshot gives {:?}, on the original {:?}\n{}", which, res1, res, o));
+            }
+            class.push_str(" (C11 class: outcome depends on hash order)");
+        }
+    }
+    Ok(class)
 }
